@@ -1,6 +1,6 @@
 //! C20 stacked flavours compose as byte-stream transformers.
 
-use crate::checks::c05::value_corpus;
+use crate::checks::c05::{real_decode, real_plain, value_corpus};
 use crate::dynval::{with_shape, Dyn};
 use crate::framing::*;
 use crate::rt::{hex, trap, Ctx};
@@ -13,7 +13,6 @@ use std::sync::atomic::{AtomicU64, Ordering};
 use vmodel::codecs::{cobs_decode_frame, cobs_encode};
 use vmodel::glue::AsData;
 use vmodel::shape::*;
-use vmodel::spec::spec_encode;
 
 /// user flavour implementing only try_push
 #[derive(Default)]
@@ -109,7 +108,12 @@ pub fn run(ctx: &Ctx) {
     let multi_blocks = AtomicU64::new(0);
     corpus.par_iter().enumerate().for_each(|(si, (s, vals))| {
         for (vi, v) in vals.iter().enumerate() {
-            let plain = spec_encode(v).unwrap();
+            // "the plain encoding" = what the real plain encoder produces
+            let plain = match real_plain(v) {
+                Some(p) => p,
+                None => continue,
+            };
+            let want_value = real_decode(s, &plain).map(|x| x.0);
             let d = AsData(v);
             let order = (si as u64) << 32 | (vi as u64) << 12;
             let case = |stack: &str| json!({"shape": s, "value": v, "stack": stack});
@@ -207,15 +211,17 @@ pub fn run(ctx: &Ctx) {
                 calls.fetch_add(1, Ordering::Relaxed);
                 let inner = cobs_decode_frame(&both_want[..both_want.len() - 1]).unwrap();
                 let r = trap(|| with_shape(s, || crc_from::<Dyn>(*a, &inner)));
-                match r {
-                    Ok(Ok(Dyn(got))) if &got == v => {}
-                    other => ctx.violation("stack-undo", format!("undoing COBS then CRC gave {:?}", other), order, case("undo")),
+                match (r, &want_value) {
+                    (Ok(Ok(Dyn(got))), Ok(w)) if &got == w => {}
+                    (Ok(Err(e)), Err(w)) if &e == w => {}
+                    (other, w) => ctx.violation("stack-undo", format!("undoing COBS then CRC gave {:?}, plain decoding of the plain encoding gives {:?}", other, w), order, case("undo")),
                 }
                 // and the real COBS decoder on the real stack output yields the value (checksum ignored by from_bytes)
                 let mut fr = both_want.clone();
-                match trap(|| with_shape(s, || postcard::from_bytes_cobs::<Dyn>(&mut fr))) {
-                    Ok(Ok(Dyn(got))) if &got == v => {}
-                    other => ctx.violation("stack-undo", format!("from_bytes_cobs on the stacked frame gave {:?}", other), order, case("undo-cobs")),
+                match (trap(|| with_shape(s, || postcard::from_bytes_cobs::<Dyn>(&mut fr))), &want_value) {
+                    (Ok(Ok(Dyn(got))), Ok(w)) if &got == w => {}
+                    (Ok(Err(e)), Err(w)) if &e == w => {}
+                    (other, w) => ctx.violation("stack-undo", format!("from_bytes_cobs on the stacked frame gave {:?}, expected {:?}", other, w), order, case("undo-cobs")),
                 }
             }
         }
